@@ -65,6 +65,8 @@ def to_model(data_file: typing.IO, config: typing.Optional[STLReaderConfiguratio
       LOGGER.error("Bad TTI block")
       raise
     
-    progress_callback(i/m.get_tti_count())
+    # the GSI TNB field may read as 0: there is no progress to report against
+    if m.get_tti_count() > 0:
+      progress_callback(i/m.get_tti_count())
 
   return m.get_document()
